@@ -46,7 +46,7 @@ def C15(tier):
     return dict(models=models, stages=stages, nontrivial=sort_nontrivial, exhaustive=True,
                 rule="every canonical weak-order pattern of length 1..%d x every in-range pivot position (emitted by TLC from "
                      "MC_Partition_emit) replayed on strides 1,2,-1,-3 in dev and release builds, plus randomized lanes up to "
-                     "96 elements; an observation is non-trivial when the lane has >= 2 elements; distinct = distinct "
+                     "40 (quick) / 64 (thorough) elements; an observation is non-trivial when the lane has >= 2 elements; distinct = distinct "
                      "observation records" % n_emit,
                 assumptions=SORT_ASSUME, trusted=["rank projection of lane contents (sort + dedup)"])
 
